@@ -9,7 +9,7 @@ class C08:
             "structurally valid messages with hostile field values (absurd / negative / non-numeric Content-Length, empty / huge / "
             "bracket-only Via hosts and received values, missing mandatory headers, thousands of headers or parameters, unparsable typed "
             "headers), each history ending with a plain request that must still be served; a crash of the process, a barrier that never "
-            "returns (stalled message loop) or > 768 MiB obtained from the OS during a case are violations; outputs are compared with the "
+            "returns (stalled message loop) or > 300 MiB obtained from the OS during a case are violations; outputs are compared with the "
             "model (discard of undecodable input, connection closed). Non-trivial = at least one hostile input was followed by a served "
             "request; distinct by content hash.")
     trusted = ["the Go runtime, fmt, regexp, net and bufio internals are trusted not to panic on their own"]
